@@ -270,6 +270,23 @@ class Sandbox:
         elif how == 'other_name' and doc is not None:
             doc['buildName'] = 'another build'
             data = gzip.compress(json.dumps(doc).encode())
+        elif how == 'bitflip_inplace':
+            # silent corruption: same inode, same size, same modification time - only a byte of the payload differs
+            if len(raw) < 40:
+                return              # nothing resembling a cache file is there
+            st0 = os.stat(fn)
+            i = 10 + (arg * 7919) % (len(raw) - 18)
+            data = raw[:i] + bytes([raw[i] ^ (1 << (arg % 8))]) + raw[i + 1:]
+            with open(fn, 'r+b') as f:
+                f.write(data)
+            os.utime(fn, ns=(st0.st_atime_ns, st0.st_mtime_ns))
+            h = hashlib.sha256(data).hexdigest()
+            dec = self._decode_cache(data)
+            if dec is not None and dec in self.cache_docs:
+                self.cache_serials.setdefault(h, self.cache_docs[dec])     # undetectable corruption
+            if h not in self.cache_serials:
+                self.planted[h] = 'X' + how
+            return
         else:
             data = b'garbage'
         with open(fn, 'wb') as f:
